@@ -6,11 +6,20 @@ use crate::mem::{get_executable_memory_slice, memory_read_byte, memory_write_byt
 pub fn run_code_block(registers: &mut Registers, mem: *mut MemoryAreas) -> u8 {
   let mut status = cpu::STATUS_NORMAL;
   let starts_in_fixed_bank = registers.ip < 0x4000;
+  // Same rule as the translator for code that remaps the bank it runs from:
+  // the block ends right after the instruction that changed the mapping
+  let watch_bank = registers.ip >= 0x4000 && registers.ip < 0x8000;
+  if watch_bank {
+    unsafe { (*mem).rom_bank_changed = false; }
+  }
   loop {
     match run_next_op(registers, mem) {
       Some((op_status, should_break)) => {
         status = op_status;
         if should_break {
+          break;
+        }
+        if watch_bank && unsafe { (*mem).rom_bank_changed } {
           break;
         }
         if starts_in_fixed_bank && registers.ip >= 0x4000 {
